@@ -264,6 +264,7 @@ var funcs = []fn{
 	{"ss2022", "*ShadowPacketServerUnpacker", "UnpackInPlace", "ShadowPacketServerUnpack"},
 	{"ss2022", "*ShadowPacketClientUnpacker", "UnpackInPlace", "ShadowPacketClientUnpack"},
 	{"ss2022", "*ShadowStreamConn", "read", "ShadowStreamConnRead"},
+	{"ss2022", "*ShadowStreamConn", "readChunk", "ShadowStreamConnReadChunk"},
 	{"ss2022", "*StreamServer", "HandleStream", "StreamServerHandleStream"},
 	{"ss2022", "*ShadowStreamClientConn", "initRead", "ShadowStreamClientInitRead"},
 	{"ss2022", "", "readOnceExpectFull", "readOnceExpectFull"},
@@ -581,6 +582,34 @@ func main() {
 				return err
 			}
 			l.BoolDef(m.lean, g, "ss2022."+m.recv+".PackInPlace: every mrand.IntN(x) is under a condition with the conjunct `x > 0`")
+		}
+		// ShadowStreamConn.readChunk slices b[:length+tagSize] without a capacity check of its own: it must be reachable only
+		// through ShadowStreamConn.read, after read's `cap(b) < streamReadMinBufferSize` guard.
+		{
+			calls, inRead := 0, 0
+			for _, f := range ss.Files {
+				for _, d := range f.Decls {
+					fd, ok := d.(*ast.FuncDecl)
+					if !ok || fd.Body == nil {
+						continue
+					}
+					ast.Inspect(fd.Body, func(n ast.Node) bool {
+						if c, ok := n.(*ast.CallExpr); ok {
+							if se, ok := c.Fun.(*ast.SelectorExpr); ok && se.Sel.Name == "readChunk" {
+								calls++
+								if fd.Name.Name == "read" && fd.Recv != nil && ss.Src(fd.Recv.List[0].Type) == "*ShadowStreamConn" {
+									inRead++
+								}
+							}
+						}
+						return true
+					})
+				}
+			}
+			if calls == 0 {
+				return fmt.Errorf("ss2022: no call of readChunk found")
+			}
+			l.BoolDef("readChunkOnlyCalledFromRead", calls == inRead, "every call of (*ShadowStreamConn).readChunk is inside (*ShadowStreamConn).read")
 		}
 		// F4: does the service refuse `direct` + tunnelUDPTargetOnly + non-IP tunnelRemoteAddress at load?
 		sv, err := ld.Load("service")
